@@ -22,7 +22,7 @@ from .. import gen, probes
 from ..core import Check, jdigest, result_template
 from ..oracles import kepler
 from ..run import cleanup, fmt_ts, parse_ts, wrap_method
-from .common import drive, note_abort, time_info, variant
+from .common import drive, note_abort, over, time_info, variant
 
 CONS_REL = 1e-8                     # energy / angular momentum, relative
 RTOL = 1e-10                        # the integrator's own relative tolerance (Dynamics.RELATIVE_TOL)
@@ -200,7 +200,7 @@ class C03(Check):
                     upd("kepler_pos_ratio_to_limit", dp / KEP_POS, 1.0)
                     upd("kepler_vel_ratio_to_limit", dv / KEP_VEL, 1.0)
                     upd("kepler_pos_km_measured", dp, KEP_POS)
-                    if dp > KEP_POS or dv > KEP_VEL:
+                    if over(dp, KEP_POS) or over(dv, KEP_VEL):
                         viol.append({"clause": "kepler-mismatch", "key": base_cfg["propagation"]["integration_method"],
                                      "detail": f"target {tid} at t={k * step}s: propagated state is {dp:.3e} km / {dv:.3e} km/s from the closed-form Kepler solution"})
                         break
@@ -208,7 +208,7 @@ class C03(Check):
                     dh = float(np.linalg.norm(kepler.ang_mom(got) - h0) / np.linalg.norm(h0))
                     upd("energy_relative", de, CONS_REL)
                     upd("angular_momentum_relative", dh, CONS_REL)
-                    if de > CONS_REL or dh > CONS_REL:
+                    if over(de, CONS_REL) or over(dh, CONS_REL):
                         viol.append({"clause": "not-conservative", "key": "two-body", "detail": f"target {tid} at t={k * step}s: energy drift {de:.3e}, angular momentum drift {dh:.3e} (relative)"})
                         break
                     compared += 1
@@ -218,7 +218,7 @@ class C03(Check):
             upd("batch_vs_single_pos_ratio_to_limit", b["dp"] / b["lp"], 1.0)
             upd("batch_vs_single_vel_ratio_to_limit", b["dv"] / b["lv"], 1.0)
             cnt["batch_propagations_checked"] = cnt.get("batch_propagations_checked", 0) + 1
-            if b["dp"] > b["lp"] or b["dv"] > b["lv"]:
+            if over(b["dp"], b["lp"]) or over(b["dv"], b["lv"]):
                 viol.append({"clause": "batch-differs-from-single", "key": b["cls"],
                              "detail": f"a (6,{b['K']}) batch propagated over {b['span']}s differs from propagating its columns one at a time by {b['dp']:.3e} km / {b['dv']:.3e} km/s"})
                 break
@@ -232,7 +232,7 @@ class C03(Check):
                     upd("bulk_vs_stepped_pos_ratio_to_limit", dp / REL_POS, 1.0)
                     upd("bulk_vs_stepped_vel_ratio_to_limit", dv / REL_VEL, 1.0)
                     cnt["bulk_epochs_checked"] = cnt.get("bulk_epochs_checked", 0) + 1
-                    if dp > REL_POS or dv > REL_VEL:
+                    if over(dp, REL_POS) or over(dv, REL_VEL):
                         viol.append({"clause": "bulk-differs-from-stepped", "key": "propagateBulk",
                                      "detail": f"target {tid}: propagateBulk over the epoch grid gives a state {dp:.3e} km / {dv:.3e} km/s from the stepped run at t={k * step}s"})
                         break
@@ -277,7 +277,7 @@ class C03(Check):
                     upd(f"{name}_vel_ratio_to_limit", dv / REL_VEL, 1.0)
                     upd(f"{name}_pos_km_measured", dp, REL_POS)
                     compared += 1
-                    if dp > REL_POS or dv > REL_VEL:
+                    if over(dp, REL_POS) or over(dv, REL_VEL):
                         what = ("started {} steps later from the copied states".format(m["k"]) if m["tag"] == "shift" else m["tag"])
                         viol.append({"clause": "epoch-split-dependence" if m["tag"] == "shift" else "not-composable", "key": m["tag"].split("-")[0],
                                      "detail": f"target {tid} at t={k * step}s: the run {what} differs from the base run by {dp:.3e} km / {dv:.3e} km/s "
